@@ -613,7 +613,7 @@ def extra(tier, seed):
         "nontrivial": nontrivial,
         "violations": violations,
         "samples": samples,
-        "coverage": {"exhaustive": bool(complete), "enumerations": per, "enumerated_sequences": total},
+        "coverage": {"exhaustive": False, "bounded_enumerations_complete": bool(complete), "enumerations": per, "enumerated_sequences": total},
     }
 
 
